@@ -208,6 +208,11 @@ def verifyContract (code : List Transfer) (t : Tx) : Bool :=
   | none => false
   | some (ins, outs) => ins == t.contractInputs && outs == t.contractOutputs
 
+/-- `ImmediateVerifyTx` of a transaction that carries no contract request: it must carry no
+contract read / write set either (`ErrInvalidTxExt`), in particular no declared contract inputs -/
+def verifyTxNoCode (exempt : Tx → Input → Bool) (e : Env) (t : Tx) : Bool :=
+  verifyTxWith exempt e t && t.contractInputs.isEmpty && t.contractOutputs.isEmpty
+
 /-- `ImmediateVerifyTx` of a transaction carrying contract requests whose token side is `code` -/
 def verifyTxC (exempt : Tx → Input → Bool) (e : Env) (code : List Transfer) (t : Tx) : Bool :=
   verifyTxWith exempt e t && verifyContract code t
